@@ -29,7 +29,7 @@ RULE = (
     "other texts in between); non-trivial = text of >= 2 tokens; distinct = distinct texts"
 )
 ASSUMPTIONS = ["an invalid regular expression inside a pattern counts as a reported definition error, not as a well-formed text"]
-MUST_SEE = ["regex_unpaired_brackets", "regex_engine_limit_literals", "regex_inner_whitespace", 
+MUST_SEE = ["syntax_error_next_to_format_characters", "regex_unpaired_brackets", "regex_engine_limit_literals", "regex_inner_whitespace", 
     "xpath_accepted", "xpath_rejected", "pattern_accepted", "pattern_rejected", "mutations_still_valid", "whitespace_variants", "recompiles_cold",
     "recompiles_hot", "unknown_class", "non_node_class", "duplicate_capture", "var_before_capture", "var_inside_own_capture", "random_strings", "late_defined_class", "compile_after_rejected", "escaped_quote_regexes",
 ]
@@ -369,6 +369,11 @@ def run_shard(ctx):
         for rx in ('a\\"', '\\"x\\"', 'say \\"hi\\"', '\\"', 'x\\\\', '[\\"a]+'):
             ctx.count("escaped_quote_regexes")
             check_pattern(f'({P}Leaf @s="{rx}")', "accept", "escaped-quote-regex")
+        # syntax errors next to text with braces / percent signs / backslashes (whatever the error message is built with)
+        for frag in ('@s="^ab{2}c$"', '@s="x{1,2}y"', '@s="{0}{name}"', '@s="100%s %d"', '@s="a\\\\b{"'):
+            for tail in (" @)", " -> )", " ]", " @v=)", ")) extra", " $"):
+                ctx.count("syntax_error_next_to_format_characters")
+                check_pattern(f"({P}Leaf {frag}{tail}", "reject", "format-characters-in-rejected-text")
         # regex literals holding brackets that are not paired as text (escaped, or inside a character class)
         for rx in ("\\(", "^:-\\)$", "a[(]b", "^\\[x", "[)\\]]+", "\\)\\)\\("):
             ctx.count("regex_unpaired_brackets")
